@@ -11,6 +11,7 @@ import (
 	"strings"
 
 	"verif/wscheck/internal/fold"
+	"verif/wscheck/internal/load"
 )
 
 // byte cells used to enumerate tokens symbolically
@@ -1212,5 +1213,187 @@ func headerWriterRules(c *Ctx, prop string) {
 		c.R.OK(rule, rule+"/WriteTo", c.P.FuncPos(f), "delegates to (net/http.Header).Write on the receiver")
 	} else {
 		c.R.Unknown(rule, rule+"/WriteTo", c.P.FuncPos(f), "the extra headers are no longer written by net/http's Header.Write: whether every value of a multi-valued key (two Cookie lines, several X-Forwarded-For values) still reaches the peer is not decided")
+	}
+}
+
+// builtinStatusRules folds the package initialiser of ws and reads the values
+// the built-in handshake errors have afterwards: each is a rejection carrying
+// the status the property names (and 426 carries Sec-WebSocket-Version: 13).
+func builtinStatusRules(c *Ctx, prop string) {
+	rule := prop + ".builtin-error-statuses"
+	c.R.Rule(rule, 9, "after package initialisation every built-in handshake error is a *ConnectionRejectedError with the status RFC 6455 / the property names: 505 bad protocol, 405 bad method, 400 bad header or malformed request, 426 + Sec-WebSocket-Version: 13 for a wrong version")
+	pk := c.P.ByPath[ws]
+	rn := c.P.NamedType(ws, "ConnectionRejectedError")
+	if pk == nil || rn == nil {
+		c.R.Unknown(rule, rule+"/anchor", "-", "package ws / ConnectionRejectedError do not resolve")
+		return
+	}
+	var initFn *ssa.Function
+	for _, sp := range c.P.ModulePkgs() {
+		if sp.Pkg.Path() == ws {
+			initFn = sp.Func("init")
+		}
+	}
+	if initFn == nil {
+		c.R.Unknown(rule, rule+"/anchor:init", "-", "package initialiser of ws not found")
+		return
+	}
+	rst := structOf(rn)
+	iCode, iHeader := fieldIdx(rst, "code", nil), fieldIdx(rst, "header", nil)
+	if iCode < 0 || iHeader < 0 {
+		c.R.Unknown(rule, rule+"/anchor:fields", "-", "ConnectionRejectedError.code / .header do not resolve")
+		return
+	}
+	want := []struct {
+		name   string
+		code   int64
+		header string
+	}{
+		{"ErrHandshakeBadProtocol", 505, ""}, {"ErrHandshakeBadMethod", 405, ""},
+		{"ErrHandshakeBadHost", 400, ""}, {"ErrHandshakeBadUpgrade", 400, ""}, {"ErrHandshakeBadConnection", 400, ""},
+		{"ErrHandshakeBadSecKey", 400, ""}, {"ErrHandshakeBadSecVersion", 400, ""}, {"ErrMalformedRequest", 400, ""},
+		{"ErrHandshakeUpgradeRequired", 426, "Sec-WebSocket-Version: 13\r\n"},
+	}
+	m := c.machine()
+	m.OpaqueOK = true
+	// Of everything package initialisation calls, only the functions that build or fill a
+	// rejection are followed (their signature or body mentions ConnectionRejectedError, or they
+	// call such a function); every other call is an opaque effect.
+	mentions := func(t types.Type) bool {
+		return strings.Contains(types.TypeString(t, nil), rn.String())
+	}
+	builds := map[*ssa.Function]bool{}
+	funcs := c.P.AllModuleFuncs()
+	for _, fn := range funcs {
+		if mentions(fn.Signature) {
+			builds[fn] = true
+			continue
+		}
+		for _, b := range fn.Blocks {
+			for _, in := range b.Instrs {
+				if v, ok := in.(ssa.Value); ok && mentions(v.Type()) {
+					builds[fn] = true
+				}
+			}
+		}
+	}
+	for changed := true; changed; {
+		changed = false
+		for _, fn := range funcs {
+			if builds[fn] {
+				continue
+			}
+			for _, b := range fn.Blocks {
+				for _, in := range b.Instrs {
+					var callee *ssa.Function
+					switch x := in.(type) {
+					case ssa.CallInstruction:
+						callee = x.Common().StaticCallee()
+					case *ssa.MakeClosure:
+						callee, _ = x.Fn.(*ssa.Function)
+					}
+					if callee != nil && builds[callee] && !builds[fn] {
+						builds[fn] = true
+						changed = true
+					}
+				}
+			}
+		}
+	}
+	m.Inline = func(fn *ssa.Function) bool {
+		return fn == initFn || load.InModule(fn) && builds[fn] && fn.Name() != "init"
+	}
+	// the functions that are not followed and write through none of their parameters (may-write
+	// summaries of the whole module) leave their arguments as they are
+	pw := c.paramWrites()
+	for _, fn := range funcs {
+		if builds[fn] || fn.Blocks == nil || fn.Parent() != nil {
+			continue
+		}
+		readOnly := true
+		for _, p := range fn.Params {
+			if pw[p] != "" {
+				readOnly = false
+			}
+		}
+		if readOnly {
+			m.Models[fold.CanonFuncName(fn)] = func(cl *fold.Call) fold.Val { return cl.M.FreshResults(cl) }
+		}
+	}
+	m.GlobalInit = func(g *ssa.Global) (fold.Val, bool) {
+		if strings.HasPrefix(g.Name(), "init$guard") {
+			return fold.Bool(false), true
+		}
+		return nil, false // every other variable has the value the initialiser stores
+	}
+	got := map[string]string{}
+	hdr := map[string]string{}
+	differ := map[string]bool{}
+	set := func(mp map[string]string, k, v string) {
+		if old, ok := mp[k]; ok && old != v {
+			differ[k] = true
+		}
+		mp[k] = v
+	}
+	paths := m.Explore(initFn, func(mm *fold.Machine) []fold.Val { return nil }, func(mm *fold.Machine, p *fold.Path) {
+		for _, w := range want {
+			g := c.P.Global(ws, w.name)
+			if g == nil {
+				continue
+			}
+			v := mm.Load(fold.Ref{O: mm.GlobalObj(g)})
+			if i, ok := v.(fold.Iface); ok {
+				v = i.V
+			}
+			r, ok := v.(fold.Ref)
+			if !ok {
+				set(got, w.name, "not a pointer to a rejection: "+fold.Show(v))
+				continue
+			}
+			sv, ok := mm.Load(r).(fold.Struct)
+			if !ok || len(sv.F) <= iCode || len(sv.F) <= iHeader {
+				set(got, w.name, "not a rejection value: "+fold.Show(mm.Load(r)))
+				continue
+			}
+			set(got, w.name, fold.Show(sv.F[iCode]))
+			h := sv.F[iHeader]
+			if i, ok := h.(fold.Iface); ok {
+				h = i.V
+			}
+			set(hdr, w.name, fold.Show(h))
+		}
+	})
+	c.R.AddCells(len(paths))
+	c.R.Paths += len(paths)
+	c.R.Func(initFn.String())
+	undecided := ""
+	for _, p := range paths {
+		if p.Abort != "" || p.Panic {
+			undecided = "undecided: " + p.Abort + panicNote(p)
+		}
+	}
+	for _, w := range want {
+		key := rule + "/" + w.name
+		g := c.P.Global(ws, w.name)
+		if g == nil {
+			c.R.Unknown(rule, key, "-", "anchor variable ws."+w.name+" does not resolve any more")
+			continue
+		}
+		pos := c.P.Pos(g.Pos())
+		if undecided != "" {
+			c.R.Unknown(rule, key, pos, undecided)
+			continue
+		}
+		var problems []string
+		if differ[w.name] {
+			problems = append(problems, "undecided: the value of "+w.name+" differs between the paths of package initialisation")
+		}
+		if got[w.name] != fmt.Sprint(w.code) {
+			problems = append(problems, fmt.Sprintf("%s carries status %s, the property names %d", w.name, got[w.name], w.code))
+		}
+		if w.header != "" && hdr[w.name] != fmt.Sprintf("%q", w.header) {
+			problems = append(problems, fmt.Sprintf("%s carries the extra header %s, want %q", w.name, hdr[w.name], w.header))
+		}
+		c.verdict(rule, key, pos, problems, fmt.Sprintf("status %d%s", w.code, map[bool]string{true: " with " + strings.TrimSpace(w.header), false: ""}[w.header != ""]))
 	}
 }
